@@ -42,13 +42,13 @@ def run(prop, only=None, episodes=None):
             if m.get("tests"):
                 t = subprocess.run(
                     ["/venv/bin/python", "-m", "pytest", "-q", "-x", "-p", "no:cacheprovider"] + m["tests"],
-                    capture_output=True, text=True, cwd=d, env=dict(os.environ, PYTHONPATH=d),
+                    capture_output=True, text=True, cwd=d, env=dict(os.environ, PYTHONPATH=d, PATH="/venv/bin:" + os.environ["PATH"]),
                 )
                 tests = "tests-pass" if t.returncode == 0 else "TESTS-FAIL"
             rows.append((m["name"], p.returncode, round(dt, 1), tests, viol[:2]))
             print("%-40s exit=%d %5.1fs %s %s" % (m["name"], p.returncode, dt, tests, viol[:1]), flush=True)
             if p.returncode not in (0, 1):
-                print(p.stdout[-1500:], p.stderr[-1500:])
+                print("   ", [l for l in p.stdout.splitlines() if "HARNESS" in l][:2])
         finally:
             shutil.rmtree(d, ignore_errors=True)
             # replays written for mutants are not evidence about /repo
